@@ -70,17 +70,18 @@ fn is_atom(e: &R) -> bool {
 
 thread_local! {
     /// rendering mode: groups as `(?<gN>..)`, references as `\\k<gN>` / `(?(<gN>)..)` instead of numbers
-    static NAMED: std::cell::Cell<bool> = std::cell::Cell::new(false);
+    /// 0 = numbered; 1 = groups named g<N>; 2 = groups named by the NUMBER N+1 (a digit-only name that is not the group's index)
+    static NAMED: std::cell::Cell<u8> = std::cell::Cell::new(0);
     static NEXT_GROUP: std::cell::Cell<usize> = std::cell::Cell::new(0);
 }
 
 /// the pattern text of a whole tree; `named`: every group gets the name g<number> and is referred to by it
-pub fn render_top(e: &R, named: bool) -> String {
+pub fn render_top(e: &R, named: u8) -> String {
     NAMED.with(|n| n.set(named));
     NEXT_GROUP.with(|n| n.set(0));
     let mut out = String::new();
     render(e, &mut out);
-    NAMED.with(|n| n.set(false));
+    NAMED.with(|n| n.set(0));
     out
 }
 
@@ -132,8 +133,11 @@ pub fn render(e: &R, out: &mut String) {
         }
         R::Group(c) => {
             let g = NEXT_GROUP.with(|n| { let v = n.get() + 1; n.set(v); v });
-            if NAMED.with(|n| n.get()) {
+            let mode = NAMED.with(|n| n.get());
+            if mode == 1 {
                 out.push_str(&format!("(?<g{}>", g));
+            } else if mode == 2 {
+                out.push_str(&format!("(?<{}>", g + 1));
             } else {
                 out.push('(');
             }
@@ -178,16 +182,22 @@ pub fn render(e: &R, out: &mut String) {
             out.push(')');
         }
         R::Backref(n) => {
-            if NAMED.with(|x| x.get()) {
+            let mode = NAMED.with(|x| x.get());
+            if mode == 1 {
                 out.push_str(&format!("\\k<g{}>", n))
+            } else if mode == 2 {
+                out.push_str(&format!("\\k<{}>", n + 1))
             } else {
                 out.push_str(&format!("\\{}", n))
             }
         }
         R::KeepOut => out.push_str("\\K"),
         R::CondGroup(n, t, f) => {
-            if NAMED.with(|x| x.get()) {
+            let mode = NAMED.with(|x| x.get());
+            if mode == 1 {
                 out.push_str(&format!("(?(<g{}>)", n));
+            } else if mode == 2 {
+                out.push_str(&format!("(?(<{}>)", n + 1));
             } else {
                 out.push_str(&format!("(?({})", n));
             }
@@ -953,7 +963,7 @@ fn check_pattern(e: &R, texts: &[String], budget: &mut Budget) -> Option<(Value,
         return None;
     }
     // numbered spelling, and -- when the pattern refers to groups -- the spelling with named groups and named references
-    let spellings: Vec<bool> = if count_groups(e) > 0 && has_refs(e) { vec![false, true] } else { vec![false] };
+    let spellings: Vec<u8> = if count_groups(e) > 0 && has_refs(e) { vec![0, 1, 2] } else { vec![0] };
     for named in spellings {
         let pat = render_top(e, named);
         let re = match catch_unwind(AssertUnwindSafe(|| Regex::new(&pat))) {
@@ -986,10 +996,10 @@ fn check_pattern(e: &R, texts: &[String], budget: &mut Budget) -> Option<(Value,
 
 /// the rendered pattern of generator coordinates (used by other families as a pattern source)
 pub fn rendered(seed: u64, index: u64) -> String {
-    render_top(&regenerate(seed, index), false)
+    render_top(&regenerate(seed, index), 0)
 }
 pub fn fixed_rendered() -> Vec<String> {
-    fixed_patterns().iter().map(|e| render_top(e, false)).collect()
+    fixed_patterns().iter().map(|e| render_top(e, 0)).collect()
 }
 
 /// parse a witness pattern back: witnesses carry the generator coordinates instead
@@ -1056,7 +1066,7 @@ impl Family for RefSem {
     fn run(&self, w: &Value) -> Option<String> {
         let gen = w["gen"].as_array()?;
         let e = regenerate(gen[0].as_u64()?, gen[1].as_u64()?);
-        let pat = render_top(&e, w["named"].as_bool().unwrap_or(false));
+        let pat = render_top(&e, w["named"].as_u64().unwrap_or(0) as u8);
         if Some(pat.as_str()) != w["pattern"].as_str() {
             return Some(format!("witness does not regenerate (got /{}/)", pat));
         }
